@@ -1,0 +1,32 @@
+//go:build verif
+
+package table
+
+import (
+	"github.com/dgraph-io/badger/v4/fb"
+	"github.com/dgraph-io/badger/v4/y"
+)
+
+// VerifCryptoIVs returns, for an encrypted table, the IV stored in the clear behind the
+// encrypted index and behind every encrypted block (the last 16 bytes of each, as written by
+// Builder.encrypt). For an unencrypted table all results are nil. Read-only.
+func (t *Table) VerifCryptoIVs() (indexIV []byte, blockIVs [][]byte) {
+	if !t.shouldDecrypt() {
+		return nil, nil
+	}
+	idx := t.readNoFail(t.indexStart, t.indexLen)
+	if len(idx) >= 16 {
+		indexIV = y.Copy(idx[len(idx)-16:])
+	}
+	for i := 0; i < t.offsetsLength(); i++ {
+		var ko fb.BlockOffset
+		y.AssertTrue(t.offsets(&ko, i))
+		raw, err := t.read(int(ko.Offset()), int(ko.Len()))
+		if err != nil || len(raw) < 16 {
+			blockIVs = append(blockIVs, nil)
+			continue
+		}
+		blockIVs = append(blockIVs, y.Copy(raw[len(raw)-16:]))
+	}
+	return indexIV, blockIVs
+}
